@@ -643,8 +643,15 @@ def run(ck):
             if m['abort'] is None:
                 skeletons.add(m['skeleton'])
             # --- results
+            illcond = (reduce_var and tol_class(cfg) == 'adaptive' and ser.get('outcome') == 'ok' and
+                       any(r['ev'] == 'post' and r.get('err_emb') is not None and r['err_emb'] < 1e-10 for r in ser['recs']))
             if m['ranks'] is None:
                 pass    # bit-identical to the first schedule's results (digest), which are compared below
+            elif illcond:
+                # a re-associated floating-point reduction perturbs values by rounding; when the embedded error
+                # estimate itself is at rounding level the step-size proposal (e_tol/err)^(1/k) amplifies that without
+                # bound, so serial <-> MPI cannot be compared with a fixed tolerance (rank-order reductions are compared)
+                ck.cov['reduce_order_runs_skipped_illconditioned'] = ck.cov.get('reduce_order_runs_skipped_illconditioned', 0) + 1
             else:
                 run_stats = {}
                 bad = compare(cfg, ser, m, run_stats)
